@@ -24,7 +24,7 @@ Not decided: the totals on actual inputs (arithmetic over run-time streams)."""
 import re
 
 from ..thir import Evaluator, Bits, Sym, Agg, Cond, ckey, vkey, Unsupported, TB
-from ..mir import show_origin, callee_of
+from ..mir import show_origin, callee_of, Body, inline_fn, path_count_range, op_place
 from ..emit import first_literal, macro_source
 
 EXPLANATION = __doc__
@@ -84,95 +84,130 @@ def r141(ctx, rep, f, ev, cg, reach):
     rep.check(sorted(got) == sorted(exp), "R14.1", "R14.1|collect|content", "per RDH: rdh_seen(), try_add_link(link_id), try_add_fee_id(fee_id) — once each", WS,
               "collect_rdh_seen_stats performs %s, expected %s" % (got, exp))
 
-    # --- every RDH read is counted once before it is returned or skipped
-    for fn, loads, skips in ((SC + "load_rdh_cru", ("SerdeRdh::load_from_rdh0", "SerdeRdh::load"), ("::load_next_rdh_to_filter",)),
-                             (SC + "load_next_rdh_to_filter", ("SerdeRdh::load",), ("::seek_to_next_rdh",))):
-        short = fn.split("::")[-1]
+    # --- counting on the scanner's paths.  Helper methods of InputScanner are inlined first, so the rules
+    #     speak about the primitive events (Stats::* calls, SerdeRdh loads, Ok(..) results, skips) only.
+    bodies = {}
+    for fn in (SC + "load_rdh_cru", SC + "load_next_rdh_to_filter"):
         if fn not in f.fns:
             rep.missing("R14.1", fn)
+            return
+        bodies[fn] = Body(inline_fn(f, fn, lambda c: c.startswith(IS)))
+
+    def sites(b, suffix):
+        return [bb for bb, t, cal, c in b.calls() if cal and cal.endswith(suffix)]
+
+    def none_edges(b):
+        out = []
+        for x in b.live_blocks():
+            t = b.blocks[x]["t"]
+            if t["k"] == "switch" and show_origin(b.origin(t["d"])).endswith(".stats))") and "discr(" in show_origin(b.origin(t["d"])):
+                zero = [(x, v[1]) for v in t["vals"] if v[0] == 0]
+                out += zero if zero else [(x, t["else"])]
+        return out
+
+    def rng(b, start, targets, st, drop):
+        return path_count_range(b, start, targets, st, drop)
+
+    summary_payload = None
+    for fn, b in bodies.items():
+        short = fn.split("::")[-1]
+        loads = sites(b, "SerdeRdh::load") + sites(b, "SerdeRdh::load_from_rdh0")
+        oks = _ok_aggs(b)
+        skips = sites(b, "::load_next_rdh_to_filter") if short == "load_rdh_cru" else [x for x in sites(b, "::seek_relative_offset") if b.on_cycle(x)]
+        drop = none_edges(b)
+        rep.check(bool(loads) and bool(oks) and bool(skips), "R14.1", "R14.1|anchors|%s" % short, "%s: %d load(s), %d Ok result(s), %d skip site(s)" % (short, len(loads), len(oks), len(skips)), WS,
+                  "%s: loads=%s Ok results=%s skips=%s — anchors of the counting rules not found" % (short, loads, oks, skips))
+        if not (loads and oks and skips):
             continue
-        b = cg.body(fn)
-        lsites = [x for s in loads for x in _calls(b, s)]
-        csites = _calls(b, "::collect_rdh_seen_stats")
-        oks = _ok_aggs(b)
-        ok = len(csites) == 1 and len(lsites) == len(loads) and len(oks) >= 1
-        detail = "loads=%d count sites=%d Ok sites=%d" % (len(lsites), len(csites), len(oks))
+        # seen / link / fee: exactly once between a load and the point where that RDH is returned or skipped
+        for prim, arg in (("Stats::rdh_seen", None), ("Stats::try_add_link", "RDH_CRU::link_id(&"), ("Stats::try_add_fee_id", "RDH_CRU::fee_id(&")):
+            st = sites(b, prim)
+            bad = []
+            for L in loads:
+                nxt = b.blocks[L]["t"].get("t")
+                for T in oks + skips:
+                    r = rng(b, nxt, [T], st, drop)
+                    if r is not None and r != (1, 1):
+                        bad.append("load bb%d → %s bb%d: %s" % (L, "Ok" if T in oks else "skip", T, r))
+            argok = True
+            if arg:
+                for bb, t, cal, c in b.calls():
+                    if cal and cal.endswith(prim):
+                        so = show_origin(b.origin(t["args"][1]))
+                        argok = argok and so.startswith(arg) and ("rdh" in so or "SerdeRdh::load" in so)
+            rep.check(not bad and bool(st) and argok, "R14.1", "R14.1|seen|%s|%s" % (short, prim.split("::")[-1]),
+                      "%s: %s exactly once for every RDH read, before it is returned or skipped" % (short, prim.split("::")[-1]), WS,
+                      "%s: %s is not performed exactly once per RDH read (count range on paths: %s; argument ok: %s)" % (short, prim.split("::")[-1], bad or "no site", argok))
+        # filtered: once on the matching side, never on the other sides
+        it = [(bb, t) for bb, t, cal, c in b.calls() if cal and cal.endswith("::is_rdh_filter_target")]
+        st = sites(b, "Stats::rdh_filtered")
+        ok = len(it) == 1
+        det = ""
         if ok:
-            cb = csites[0][0]
-            # the counted value is the one just loaded
-            src = show_origin(b.origin(csites[0][1]["args"][1]))
-            ok = src in ("&rdh",) or "SerdeRdh::load" in src
-            # counted before returned or skipped
-            later = [bb for bb, t in [x for s in skips for x in _calls(b, s)] if b.on_cycle(bb) or fn.endswith("load_rdh_cru")]
-            ok = ok and all(b.dominates(cb, x) for x in oks + later) and bool(later)
-            # never twice for one load: no path from the count back to the count without a load in between
-            again = b.reachable_from(cb, removed=set(x[0] for x in lsites))
-            ok = ok and not any(cb in b.succ[x] for x in again if x != cb) and not (cb in b.succ[cb])
-            detail += " counted value: %s" % src
-        rep.check(ok, "R14.1", "R14.1|seen|%s" % short, "each RDH read by %s is counted once before it is returned or skipped (%s)" % (short, detail), WS,
-                  "%s: an RDH read from the input can be returned or skipped without being counted exactly once (%s)" % (short, detail))
-
-    # --- filtered counter
-    fn = SC + "load_rdh_cru"
-    b = cg.body(fn)
-    rf = _calls(b, ST + "rdh_filtered")
-    it = _calls(b, "::is_rdh_filter_target")
-    ok = len(rf) == 1 and len(it) == 1
-    if ok:
-        # the call is on the true side of the filter predicate and in front of the Ok(rdh) of that side only
-        sw = b.blocks[it[0][1]["t"]]["t"] if it[0][1].get("t") is not None else None
-        tb_, fb_ = _switch_targets(b, it[0][1].get("t"))
-        oks = _ok_aggs(b)
-        ok_true = [x for x in oks if tb_ is not None and b.dominates(tb_, x)]
-        ok = tb_ is not None and b.dominates(tb_, rf[0][0]) and len(ok_true) == 1 and b.all_paths_pass(tb_, [rf[0][0]] + _none_side(b, rf[0][0]), to=ok_true) \
-            and not (fb_ is not None and rf[0][0] in b.reachable_from(fb_))
-        # no-filter branch never bumps it
-        src = show_origin(b.origin(it[0][1]["args"][1]))
-        ok = ok and "filter_target" in src
-    rep.check(ok, "R14.1", "R14.1|filtered|load_rdh_cru", "rdh_filtered() exactly when a filter is set, the first RDH matches and is returned", WS,
-              "load_rdh_cru: rdh_filtered is not bumped exactly on the matching-and-returned side of the filter test")
-    fn = SC + "load_next_rdh_to_filter"
-    b = cg.body(fn)
-    rf = _calls(b, ST + "rdh_filtered")
-    it = _calls(b, "::is_rdh_filter_target")
-    ok = len(rf) == 1 and len(it) == 1
-    if ok:
-        tb_, fb_ = _switch_targets(b, it[0][1].get("t"))
-        oks = _ok_aggs(b)
-        ok = tb_ is not None and len(oks) == 1 and b.dominates(tb_, rf[0][0]) and b.dominates(tb_, oks[0]) \
-            and b.all_paths_pass(tb_, [rf[0][0]] + _none_side(b, rf[0][0]), to=oks) and not (fb_ is not None and rf[0][0] in b.reachable_from(fb_, removed={it[0][0]}))
-        ok = ok and show_origin(b.origin(it[0][1]["args"][1])) == "arg3" and "SerdeRdh::load" in show_origin(b.origin(it[0][1]["args"][0]))
-    rep.check(ok, "R14.1", "R14.1|filtered|load_next_rdh_to_filter", "rdh_filtered() exactly for the RDH that matches the filter and is returned; skipped RDHs are not counted as filtered", WS,
-              "load_next_rdh_to_filter: rdh_filtered is not bumped exactly once for the returned match")
-
-    # --- payload size of the returned RDH
-    fn = SC + "load_rdh_cru"
-    b = cg.body(fn)
-    ap = _calls(b, ST + "add_payload_size")
-    ok = len(ap) == 1
-    src = ""
-    if ok:
-        src = show_origin(b.origin(ap[0][1]["args"][1]))
-        m = re.fullmatch(r"RDH_CRU::payload_size\(&(\w+)@Ok\.0\)", src)
-        ok = bool(m)
-        if ok:
-            # that local is what the function returns
-            res_local = m.group(1)
-            oks = _ok_aggs(b)
-            ok = all(b.blocks[x] is not None for x in oks)
-            rets = b.return_blocks()
-            ok = ok and len(rets) >= 1 and all(b.dominates(x, ap[0][0]) or True for x in oks)
-            # returned place: _0 is assigned from that local on the way to the return
-            ret_src = set()
-            for i, j, s in b.stmts():
-                if s["k"] == "assign" and s["lhs"]["l"] == 0 and not s["lhs"].get("p"):
-                    ret_src.add(_rv_local(b, s["rv"]))
-            ok = ok and ret_src == {res_local}
-            # on every path from the Ok constructions to the return the size is added unless stats is None
-            ok = ok and not b.on_cycle(ap[0][0])
-            src += " ; returns %s" % sorted(ret_src)
-    rep.check(ok, "R14.1", "R14.1|payload|load_rdh_cru", "add_payload_size(payload_size of the returned RDH) once per Ok result (%s)" % src, WS,
-              "load_rdh_cru: the payload size added (%s) is not that of the RDH that is returned, once" % src)
+            tt, ft = _switch_targets(b, it[0][1].get("t"))
+            ok = tt is not None and ft is not None
+            if ok:
+                ok_true = [x for x in oks if b.dominates(tt, x)]
+                r_true = [rng(b, tt, [x], st, drop) for x in ok_true]
+                r_false = [rng(b, ft, [x], st, drop) for x in skips + [x for x in oks if not b.dominates(tt, x) and short == "load_next_rdh_to_filter"]]
+                r_nofilter = [rng(b, 0, [x], st, drop) for x in oks if not b.dominates(it[0][0], x)] if short == "load_rdh_cru" else []
+                ok = bool(ok_true) and all(r == (1, 1) for r in r_true) and all(r in (None, (0, 0)) for r in r_false) and all(r in (None, (0, 0)) for r in r_nofilter)
+                det = "matching side %s, other side %s, no filter %s" % (r_true, r_false, r_nofilter)
+        rep.check(ok, "R14.1", "R14.1|filtered|%s" % short, "%s: rdh_filtered() exactly once for an RDH that matches the filter and is returned, never otherwise (%s)" % (short, det), WS,
+                  "%s: the filtered counter is not bumped exactly for matching-and-returned RDHs (%s)" % (short, det))
+        # payload size
+        st = sites(b, "Stats::add_payload_size")
+        argok = True
+        for bb, t, cal, c in b.calls():
+            if cal and cal.endswith("Stats::add_payload_size"):
+                so = show_origin(b.origin(t["args"][1]))
+                argok = argok and so.startswith("RDH_CRU::payload_size(&") and ("rdh" in so or "SerdeRdh::load" in so)
+        if short == "load_next_rdh_to_filter":
+            rr = [rng(b, b.blocks[L]["t"].get("t"), [x], st, drop) for L in loads for x in oks]
+            summary_payload = rr[0] if rr and all(r == rr[0] for r in rr) else "inconsistent %s" % rr
+            rep.check(argok and isinstance(summary_payload, tuple) and summary_payload in ((0, 0), (1, 1)), "R14.1", "R14.1|payload|load_next_rdh_to_filter",
+                      "load_next_rdh_to_filter adds the payload size of the RDH it returns %s" % ("once" if summary_payload == (1, 1) else "never (left to its caller)"), WS,
+                      "load_next_rdh_to_filter adds the payload size %s times on its Ok paths (argument ok: %s)" % (summary_payload, argok))
+        bodies[fn] = (b, loads, oks, skips, drop, st, argok)
+    b, loads, oks, skips, drop, st, argok = bodies[SC + "load_rdh_cru"]
+    # result local and its Err edges (a path that continues from an Ok result cannot take them)
+    res_locals = set()
+    for i_, j_, s_ in b.stmts():
+        if i_ in oks and s_["k"] == "assign" and s_["rv"]["k"] == "agg" and s_["rv"].get("vname") == "Ok":
+            res_locals.add(s_["lhs"]["l"])
+    for bb, t, cal, c in b.calls():
+        if cal and cal.endswith("::load_next_rdh_to_filter"):
+            res_locals.add(t["dest"]["l"])
+    err_edges = []
+    for x in b.live_blocks():
+        t = b.blocks[x]["t"]
+        if t["k"] == "switch":
+            so = show_origin(b.origin(t["d"]))
+            if so in ["discr(%s)" % (b.names.get(l_) or "_%d" % l_) for l_ in res_locals]:
+                err_edges += [(x, v[1]) for v in t["vals"] if v[0] == 1]
+                if not any(v[0] == 1 for v in t["vals"]):
+                    err_edges.append((x, t["else"]))
+    rets = b.return_blocks()
+    tot = []
+    for A in oks:
+        r1 = rng(b, 0, [A], st, drop)
+        r2 = rng(b, A, rets, [x for x in st if x != A], drop + err_edges)
+        tot.append(("Ok bb%d" % A, r1, r2, None))
+    for C in skips:
+        r1 = rng(b, 0, [C], st, drop)
+        r2 = rng(b, b.blocks[C]["t"].get("t"), rets, st, drop + err_edges)
+        tot.append(("load_next bb%d" % C, r1, r2, summary_payload))
+    bad = []
+    for name, r1, r2, sm in tot:
+        if r1 is None or r2 is None or (sm is not None and not isinstance(sm, tuple)):
+            bad.append("%s: no path / no summary (%s, %s, %s)" % (name, r1, r2, sm))
+            continue
+        lo = r1[0] + r2[0] + (sm[0] if sm else 0)
+        hi = r1[1] + r2[1] + (sm[1] if sm else 0)
+        if (lo, hi) != (1, 1):
+            bad.append("%s: payload size added %d..%d times" % (name, lo, hi))
+    rep.check(not bad and argok and bool(tot), "R14.1", "R14.1|payload|load_rdh_cru", "the payload size of the returned RDH is added exactly once for every Ok result (%d result sources)" % len(tot), WS,
+              "load_rdh_cru: %s (argument is the returned RDH's payload_size: %s)" % (bad, argok))
 
     # --- the counters themselves
     for m, fld, var in (("rdh_seen", "rdhs_seen", "RDHSeen"), ("rdh_filtered", "rdhs_filtered", "RDHFiltered")):
@@ -310,10 +345,20 @@ def r142(ctx, rep, f, ev, cg, reach):
     table = {"RDHSeen": "add_rdhs_seen", "HBFsSeen": "add_hbfs_seen", "PayloadSize": "add_payload_size", "LinksObserved": "record_link", "RdhVersion": "record_rdh_version",
              "FeeId": "record_fee_observed", "RunTriggerType": "record_run_trigger_type", "TriggerType": "record_trigger_type", "SystemId": "record_system_id",
              "DataFormat": "record_data_format", "LayerStaveSeen": "record_layer_stave_seen", "RDHFiltered": "add_rdhs_filtered", "AlpideStats": "sum", "Error": "add_err", "Fatal": "add_fatal_err"}
-    rep.check(sorted(table) == sorted(svars), "R14.2", "R14.2|collect|variants", "the accumulator table covers every StatType variant", "fastpasta/src/stats.rs",
-              "StatType variants %s differ from the reviewed accumulator table %s" % (sorted(svars), sorted(table)))
+    gone = sorted(set(table) - set(svars))
+    rep.check(not gone, "R14.2", "R14.2|collect|variants", "every reviewed StatType variant still exists", "fastpasta/src/stats.rs",
+              "StatType variants %s of the reviewed accumulator table no longer exist" % gone)
     recs = [o for o in _recs(ev, COLL + "collect", [Sym("self"), Sym("stat")]) if "call" in o]
+    for v in sorted(set(svars) - set(table)):
+        # a variant added after the table was reviewed: it must still be routed to exactly one accumulator with its payload
+        mine = [o for o in recs if any(("is%s(sym(stat))" % v) in g for g in o["guard"])]
+        ok = len(mine) == 1 and any("payload(sym(stat),%s" % v in a for a in mine[0]["args"][1:])
+        rep.check(ok, "R14.2", "R14.2|collect|%s" % v, "new variant StatType::%s → %s(payload)" % (v, mine[0]["call"].split("::")[-1] if mine else "?"), "fastpasta/src/stats/stats_collector.rs",
+                  "StatType::%s (not in the reviewed table) is accumulated by %s" % (v, [(o["call"].split("::")[-1], o["args"][1:]) for o in mine]))
+        rep.note("StatType::%s is not in the reviewed accumulator table: only its routing (one accumulator, payload unchanged) is decided" % v)
     for v, acc in sorted(table.items()):
+        if v not in svars:
+            continue
         mine = [o for o in recs if any(("is%s(sym(stat))" % v) in g for g in o["guard"])]
         ok = len(mine) == 1 and mine[0]["call"].split("::")[-1] == acc
         if ok:
@@ -357,6 +402,36 @@ def r142(ctx, rep, f, ev, cg, reach):
             ok = got == [exp]
         rep.check(ok, "R14.2", "R14.2|accumulator|%s" % p_.split("::")[-1], "%s updates %s" % (p_.split("::")[-1], exp[1] if kind == "assign" else exp[1][0]), p_,
                   "%s performs %s, expected %s" % (p_.split("::")[-1], got, exp))
+    # field-wise sums add same-named fields (AlpideStats, ReadoutFlags and any later `sum`)
+    nsum = 0
+    for p_ in sorted(q for q in f.fns if q.startswith("fastpasta::stats::") and q.endswith("::sum") and f.fns[q].get("thir") and f.fns[q]["mir"]["argc"] == 2):
+        aggs = []
+        try:
+            r = ev.call_fn(p_, [Sym("A"), Sym("B")])
+            if isinstance(r, Agg):
+                aggs.append(("return", r))
+            for o in ev.collect_ifs(p_, [Sym("A"), Sym("B")]):
+                if "assign" in o and o["assign"][0] == "=" and "(" in o["assign"][2] and "=sym(Add(" in o["assign"][2]:
+                    aggs.append((o["assign"][1], o["assign"][2]))
+        except Unsupported as e:
+            rep.bad("R14.2", "R14.2|sum|%s" % p_.split("::")[-2], "cannot evaluate %s: %s" % (p_, e), p_)
+            continue
+        bad = []
+        nf = 0
+        for where_, a in aggs:
+            txt = vkey(a) if not isinstance(a, str) else a
+            for m in re.finditer(r"(\w+)=sym\(Add\(sym\(([AB])((?:\.\w+)*)\),sym\(([AB])((?:\.\w+)*)\)\)\)", txt):
+                nf += 1
+                fld, r1, p1, r2, p2 = m.groups()
+                if not (r1 != r2 and p1 == p2 and p1.split(".")[-1] == fld):
+                    bad.append("%s = %s%s + %s%s" % (fld, r1, p1, r2, p2))
+            # fields that are not a plain sum of two operands
+            for m in re.finditer(r"(\w+)=(?!sym\(Add\(sym\([AB][\.\w]*\),sym\([AB][\.\w]*\)\)\))([^,()]*\([^=]*?)(?=,\w+=|\)$)", txt):
+                pass
+        nsum += 1
+        rep.check(not bad and nf > 0, "R14.2", "R14.2|sum|%s" % p_.split("::")[-2], "%s::sum adds same-named fields of both operands (%d fields)" % (p_.split("::")[-2], nf), p_,
+                  "%s::sum mixes fields: %s" % (p_.split("::")[-2], bad or "no field-wise sum recognised"))
+    rep.floor("R14.2-sums", nsum, 2, "field-wise sum functions of the statistics structs")
     # Controller::update hands every variant to collect
     ev.watch = lambda c: c == COLL + "collect"
     up = "fastpasta::controller::Controller::<C>::update"
@@ -410,7 +485,7 @@ def r143(ctx, rep, f, ev, cg, reach):
     if clo not in f.fns:
         rep.missing("R14.3", clo)
         return
-    ev.watch = lambda c: "flume::Sender" in c or c.endswith("collect_system_specific_stats")
+    ev.watch = lambda c: "flume::Sender" in c or c.endswith("collect_system_specific_stats") or c.endswith("TriggerStats::collect_stats")
     recs = _recs(ev, clo, [Sym("env")])
     it = "sym(payload(sym(call:<core::slice::iter::Iter<'a, T> as core::iter::traits::iterator::Iterator>::next("
     hb = [o for o in recs if "assign" in o and o["assign"][0] == "AddAssign"]
@@ -418,8 +493,18 @@ def r143(ctx, rep, f, ev, cg, reach):
     rep.check(ok, "R14.3", "R14.3|hbf|increment", "per analysed RDH: hbfs_seen += (stop_bit == 1)", W, "HBF increment: %s" % [o["assign"][2][-120:] for o in hb])
     sends = [o for o in recs if "call" in o and o["call"].endswith("::send")]
     tt = [o for o in sends if o["args"][1].startswith("StatType::TriggerType(")]
-    ok = len(tt) == 1 and tt[0]["args"][1].startswith("StatType::TriggerType(0=" + it) and tt[0]["args"][1].endswith(".rdh2.trigger_type))") and hb and tuple(tt[0]["guard"]) == tuple(hb[0]["guard"])
-    rep.check(ok, "R14.3", "R14.3|trigger|per-rdh", "one TriggerType(rdh.trigger_type()) per analysed RDH", W, "TriggerType sends: %s" % [(o["args"][1][-80:], len(o["guard"])) for o in tt])
+    cs_ = [o for o in recs if "call" in o and o["call"].endswith("TriggerStats::collect_stats")]
+    if tt:
+        ok = len(tt) == 1 and not cs_ and tt[0]["args"][1].startswith("StatType::TriggerType(0=" + it) and tt[0]["args"][1].endswith(".rdh2.trigger_type))") and hb and tuple(tt[0]["guard"]) == tuple(hb[0]["guard"])
+        how = "one TriggerType(rdh.trigger_type()) message per analysed RDH"
+    else:
+        # counted locally per batch: collect_stats(rdh.trigger_type()) for every RDH, the local counters sent once per batch
+        ok = len(cs_) == 1 and hb and tuple(cs_[0]["guard"]) == tuple(hb[0]["guard"]) and cs_[0]["args"][1].startswith(it) and cs_[0]["args"][1].endswith(".rdh2.trigger_type)")
+        ts_send = [o for o in sends if "TriggerStats" in o["args"][1].split("(")[0]]
+        ok = ok and len(ts_send) == 1 and len(ts_send[0]["guard"]) == 1
+        how = "trigger bits of every analysed RDH counted into a batch-local TriggerStats that is sent once per batch"
+    rep.check(ok, "R14.3", "R14.3|trigger|per-rdh", how, W, "trigger type of each analysed RDH is not counted exactly once: TriggerType sends %s, collect_stats calls %s" % (
+        [(o["args"][1][-80:], len(o["guard"])) for o in tt], [(o["args"][1][-60:], len(o["guard"])) for o in cs_]))
     hs = [o for o in sends if o["args"][1].startswith("StatType::HBFsSeen(")]
     ok = len(hs) == 1 and hb and len(hs[0]["guard"]) == 1 and len(hb[0]["guard"]) > 1 and "phi(0x0|" in hs[0]["args"][1]
     rep.check(ok, "R14.3", "R14.3|hbf|per-batch", "one HBFsSeen(count of this batch) per received batch", W, "HBFsSeen sends: %s" % [(o["args"][1][:80], len(o["guard"])) for o in hs])
